@@ -13,6 +13,7 @@ import (
 	"runtime"
 	"sync"
 	"sync/atomic"
+	"unsafe"
 )
 
 const (
@@ -39,6 +40,9 @@ type Sched struct {
 	// driver is non-zero (a goroutine id) while the driver itself calls into instrumented code: its
 	// yields do not park.
 	driver atomic.Uint64
+	// Notify, if set, receives a (non-blocking) signal whenever a goroutine parks: the driver's pump
+	// waits on it while simulated time passes.
+	Notify chan struct{}
 	// DriverWait, set by the driver, resumes one other goroutine; false when none can run.
 	DriverWait func() bool
 	// SelectSeed and selCount decide the poll order of rewritten select statements.
@@ -63,7 +67,14 @@ func (s *Sched) park(site string, kind int, epoch uint64) {
 	s.seq++
 	w := &Waiter{Site: site, Kind: kind, Seq: s.seq, G: g, Epoch: epoch, ch: make(chan struct{})}
 	s.waiting = append(s.waiting, w)
+	n := s.Notify
 	s.mu.Unlock()
+	if n != nil {
+		select {
+		case n <- struct{}{}:
+		default:
+		}
+	}
 	<-w.ch
 }
 
@@ -113,6 +124,13 @@ func Unlock(unlock func()) {
 	}
 }
 
+// SetNotify installs or removes the park signal channel.
+func (s *Sched) SetNotify(n chan struct{}) {
+	s.mu.Lock()
+	s.Notify = n
+	s.mu.Unlock()
+}
+
 // Waiters returns the parked goroutines (oldest first).
 func (s *Sched) Waiters() []*Waiter {
 	s.mu.Lock()
@@ -157,9 +175,20 @@ func (s *Sched) isDriver() bool {
 	return d != 0 && d == goid()
 }
 
-// goid parses the goroutine id from the stack header ("goroutine 123 [running]:"); only used while a
-// DriverCall is in progress.
+// goid returns the id of the calling goroutine. The fast path reads it from the runtime's g structure
+// (getg is three instructions of assembly) at an offset that init found by comparing with the id
+// printed in the stack header and confirmed on a second goroutine; if that calibration fails the
+// slow path parses the stack header every time.
 func goid() uint64 {
+	if goidOffset != 0 {
+		return *(*uint64)(unsafe.Pointer(getg() + goidOffset))
+	}
+	return goidSlow()
+}
+
+var goidOffset uintptr
+
+func goidSlow() uint64 {
 	var buf [40]byte
 	n := runtime.Stack(buf[:], false)
 	var id uint64
@@ -170,6 +199,38 @@ func goid() uint64 {
 		id = id*10 + uint64(c-'0')
 	}
 	return id
+}
+
+func init() {
+	if getg() == 0 {
+		return
+	}
+	candidates := func() map[uintptr]bool {
+		id, g := goidSlow(), getg()
+		m := map[uintptr]bool{}
+		for off := uintptr(0); off < 512; off += 8 {
+			if *(*uint64)(unsafe.Pointer(g + off)) == id {
+				m[off] = true
+			}
+		}
+		return m
+	}
+	a := candidates()
+	ch := make(chan map[uintptr]bool)
+	for i := 0; i < 3; i++ { // more goroutines: different ids
+		go func() { ch <- candidates() }()
+		b := <-ch
+		for off := range a {
+			if !b[off] {
+				delete(a, off)
+			}
+		}
+	}
+	if len(a) == 1 {
+		for off := range a {
+			goidOffset = off
+		}
+	}
 }
 
 // SelectOrder returns the order in which a rewritten select statement with n communication clauses
